@@ -122,7 +122,7 @@ def oracle(case) -> Result:
                 if tuple(pm.padding) != (want_pad, 0):
                     res.bad('exported-padding', layer=nid, got=list(pm.padding), want=want_pad)
 
-    pr = mk.n_pruned(spec, masks)
+    pr = mk.n_pruned(spec, masks, fixed)
     varied = bool(y_pit.numel() > 1 and float(y_pit.std()) > 1e-7)
     res.nontrivial = (pr['features'] + pr['taps'] > 0) and varied
     res.ev(*ng.spec_features(spec))
